@@ -163,6 +163,7 @@ static void stub_hsrun(void *t0ctx)
 		}
 		if (cout > 0) { cc->hbuf_out += cout; cc->hlen_out -= cout; hs_produced += cout; }
 		br_ssl_engine_flush_record(cc);
+		CHECK(!br_ssl_engine_has_pld_to_send(cc), "flush-record leaves no buffered payload unsent: the application's earlier bytes go out in their own record before close_notify / HelloRequest / a warning is written (C19)");
 		if (cc->oxa == cc->oxb) draw_out_overheads(cc);   /* switch-encryption (out) right after flush-record */
 	}
 	/* switch-encryption (in) only when no more incoming bytes (ssl_hs_common.t0 read-CCS-Finished) */
